@@ -9,7 +9,7 @@ From MM Require Import lib.ListSet lib.Values model.Heap model.Elig model.Search
   gen.Gen_Search proofs.GroupSpecs proofs.SearchBridge proofs.ExhaustiveProofs proofs.GreedyProofs proofs.TotalityProofs
   proofs.GreedyTermination.
 Import ListNotations.
-From MM Require Import gen.Gen_HeapDict gen.Gen_Exhaustive proofs.ExhaustiveBridge.
+From MM Require Import gen.Gen_HeapDict gen.Gen_Exhaustive gen.Gen_Greedy proofs.ExhaustiveBridge proofs.GreedyBridge.
 
 Theorem C09_within_constraints_never_divides_by_zero :
   forall (V : Type) (O : vops V) A (par : spar V) shareS T C,
@@ -71,6 +71,32 @@ Module C09 (K : UsualOrderedTypeFull').
       (f1 <= f2)%nat -> greedy O G.HP.kltb A par shareS bud gkey zero_key f1 = Some ds ->
       greedy O G.HP.kltb A par shareS bud gkey zero_key f2 = Some ds.
   Proof. exact @G.greedy_result_independent_of_fuel. Qed.
+
+  (* stated on the Gallina regenerated on this run from _greedy_search itself (gen/Gen_Greedy.v): the translated
+     while loop does not run out of fuel, and more fuel never changes what it returns *)
+  Theorem C09_translated_greedy_search_terminates :
+    forall (V : Type) (O : vops V) (A : assignments) (par : spar V)
+           (shareS : set -> V) (bud : set -> set -> V) (gkey : set -> set -> K.t) (zero_key : K.t) (L : list K.t),
+      (forall T C, In (gkey T C) L) ->
+      gen_greedy_search O G.HP.kltb A par shareS bud gkey zero_key (S (G.potential A par gkey L (ginit A))) <> None.
+  Proof.
+    intros V O A par shareS bud gkey zero_key L HL Hn. apply gen_greedy_none_iff in Hn.
+    destruct (G.greedy_terminates O A par shareS bud gkey zero_key L HL) as [ds Hds]. congruence.
+  Qed.
+  Theorem C09_translated_greedy_search_independent_of_fuel :
+    forall (V : Type) (O : vops V) (A : assignments) (par : spar V)
+           (shareS : set -> V) (bud : set -> set -> V) (gkey : set -> set -> K.t) (zero_key : K.t) f1 f2 r,
+      (f1 <= f2)%nat -> gen_greedy_search O G.HP.kltb A par shareS bud gkey zero_key f1 = Some r ->
+      exists r', gen_greedy_search O G.HP.kltb A par shareS bud gkey zero_key f2 = Some r' /\
+                 map (@des_groups K.t) (dd_get r' 0%Z) = map (@des_groups K.t) (dd_get r 0%Z).
+  Proof.
+    intros V O A par shareS bud gkey zero_key f1 f2 r Hle Hr.
+    pose proof (gen_greedy_groups O G.HP.kltb A par shareS bud gkey zero_key f1) as H1. rewrite Hr in H1. cbn [option_map] in H1.
+    symmetry in H1. pose proof (G.greedy_result_independent_of_fuel O A par shareS bud gkey zero_key f1 f2 _ Hle H1) as H2.
+    pose proof (gen_greedy_groups O G.HP.kltb A par shareS bud gkey zero_key f2) as H3. rewrite H2 in H3.
+    destruct (gen_greedy_search O G.HP.kltb A par shareS bud gkey zero_key f2) as [r'|]; [|discriminate].
+    exists r'. split; [reflexivity|]. cbn [option_map] in H3. congruence.
+  Qed.
 End C09.
 Module C09Z := C09 Z.
 Print Assumptions C09Z.C09_greedy_terminates.
@@ -96,3 +122,5 @@ Theorem C09_translated_exhaustive_search_no_admissible_size :
 Proof. intros. apply gen_exhaustive_nil, exhaustive_no_sizes; assumption. Qed.
 Print Assumptions C09_translated_exhaustive_search_empty_when_infeasible.
 Print Assumptions C09_translated_exhaustive_search_no_admissible_size.
+Print Assumptions C09Z.C09_translated_greedy_search_terminates.
+Print Assumptions C09Z.C09_translated_greedy_search_independent_of_fuel.
